@@ -373,19 +373,42 @@ if got != want[:len(got)] or len(got) > len(want):
 '''
 
 
+REPLAY_AD2 = '''
+sys.path.insert(0, '/verif')
+from specs.cl_harness import run_recv_adapter_harness
+from pymtl3 import Bits16
+import pymtl3.stdlib.queues.cl_queues as CL
+kind, n = %(kind)r, %(n)d
+eo, do, vals = %(eo)r, %(do)r, %(vals)r
+cls = {'normal': CL.NormalQueueCL, 'pipe': CL.PipeQueueCL, 'bypass': CL.BypassQueueCL}[kind]
+try:
+  acc, kept = run_recv_adapter_harness(cls, n, eo, do, [Bits16(v) for v in vals], Bits16)
+except Exception as e:
+  reproduced(f"{kind} CL queue n={n} behind the RTL-to-CL adapter, offers eo={eo} do={do}: simulation raised {type(e).__name__}: {e}")
+want = [vals[t] for t in acc]
+got = [int(x) for x in kept]
+if got != want:
+  reproduced(f"{kind} CL queue n={n} fed by an RTL producer through RecvRTL2SendCL, consumer keeping what it was handed, offers eo={eo} do={do}: accepted {[hex(v) for v in want]}, the delivered objects read {[hex(v) for v in got]} at the end of the run")
+'''
+
+
 def item_adapter(it):
   """a cycle-level producer that reuses ONE message object feeds an RTL queue through the library's RecvCL2SendRTL
   adapter (fork mode; offers and messages symbolic): the delivered messages are a prefix of the accepted ones, in order"""
   cover.start()
   from symx import pymtl as sp
   from symx.forkx import ForkExplorer
-  from specs.cl_harness import run_adapter_harness
+  from specs.cl_harness import run_adapter_harness, run_recv_adapter_harness
   from pymtl3.stdlib.queues.queues import NormalQueueRTL, PipeQueueRTL, BypassQueueRTL
+  import pymtl3.stdlib.queues.cl_queues as CLQ
   kind, n, k = it['kind'], it['n'], it['k']
-  name = f"adapter/{kind}/n={n}/k={k}"
+  RTL2CL = it.get('side') == 'rtl2cl'      # RTL producer -> RecvRTL2SendCL -> CL queue -> CL consumer that keeps the objects; drained at the end
+  name = f"adapter{'-rtl2cl' if RTL2CL else ''}/{kind}/n={n}/k={k}"
   Bits = sp.setup()
   from pymtl3 import Bits16
   cls = {'normal': NormalQueueRTL, 'pipe': PipeQueueRTL, 'bypass': BypassQueueRTL}[kind]
+  if RTL2CL: cls = {'normal': CLQ.NormalQueueCL, 'pipe': CLQ.PipeQueueCL, 'bypass': CLQ.BypassQueueCL}[kind]
+  harness = run_recv_adapter_harness if RTL2CL else run_adapter_harness
   eos = [core.fresh(f'eo{t}', 1) for t in range(k)]
   dos = [core.fresh(f'do{t}', 1) for t in range(k)]
   msgs = [sp.sym_bits(16, f'msg{t}') for t in range(k)]
@@ -397,11 +420,11 @@ def item_adapter(it):
         sv = z3.Solver(); sv.add(*pc); assert sv.check() == z3.sat; model = sv.model()
       gg = lambda x: model.eval(x, model_completion=True).as_long()
       rec['violations'].append(dict(key=f"adapter:{cls.__name__}", what=f"{name}: {what}",
-                                    replay=REPLAY_AD % dict(kind=kind, n=n, eo=[gg(v) for _, v in eos], do=[gg(v) for _, v in dos], vals=[gg(v) for _, v in msgs])))
+                                    replay=(REPLAY_AD2 if RTL2CL else REPLAY_AD) % dict(kind=kind, n=n, eo=[gg(v) for _, v in eos], do=[gg(v) for _, v in dos], vals=[gg(v) for _, v in msgs])))
     if exc is not None:
       viol(f"simulation raised {type(exc).__name__}: {exc}"); return rec
     acc, dl = out
-    if len(dl) > len(acc): viol(f"{len(dl)} messages delivered, {len(acc)} accepted"); return rec
+    if len(dl) > len(acc) or (RTL2CL and len(dl) != len(acc)): viol(f"{len(dl)} messages delivered, {len(acc)} accepted" + (" (after draining)" if RTL2CL else "")); return rec
     ok = True
     for i, x in enumerate(dl):
       rec['obligations'] += 1
@@ -414,7 +437,7 @@ def item_adapter(it):
     return rec
 
   fx = ForkExplorer(leaf=leaf, max_paths=40000)
-  recs = fx.run(lambda: run_adapter_harness(cls, n, [e for e, _ in eos], [d for d, _ in dos], [b for b, _ in msgs], Bits16))
+  recs = fx.run(lambda: harness(cls, n, [e for e, _ in eos], [d for d, _ in dos], [b for b, _ in msgs], Bits16))
   res = Result(name)
   for r in recs:
     if 'error' in r: res['inconclusive'].append(r['error']); continue
@@ -458,17 +481,19 @@ def main():
         items.append(dict(kind_='cl', kind=kind, n=n, mt='16', k=2 * n + 1 if n < 3 else 6, order=order))
   for kind, n, k in ((('normal', 2, 5), ('bypass', 1, 4), ('pipe', 2, 5)) if tier == 'quick' else (('normal', 2, 6), ('normal', 3, 7), ('bypass', 1, 5), ('bypass', 2, 6), ('pipe', 1, 5), ('pipe', 2, 6))):
     items.append(dict(kind_='adapter', kind=kind, n=n, k=k, mt='16'))
+  for kind, n, k in ((('normal', 2, 4), ('bypass', 1, 4), ('pipe', 1, 4)) if tier == 'quick' else (('normal', 1, 5), ('normal', 2, 5), ('bypass', 1, 5), ('bypass', 2, 5), ('pipe', 1, 5), ('pipe', 2, 5))):
+    items.append(dict(kind_='adapter', side='rtl2cl', kind=kind, n=n, k=k, mt='16'))
   items.sort(key=lambda it: -it['k'] * it['n'] * (50 if it['kind_'] == 'cl' else 1))
   for it, r in pmap(dispatch, items, item_timeout=900 if tier == 'quick' else 3000):
     chk.absorb(it, r)
   chk.bounds = dict(capacities=ns, cycles='2n+2 (quick) / 2n+3 (thorough) after reset', message='8 bits, one 12-bit struct (nested list field), 32 bits (thorough)',
                     reset='symbolic every cycle for the queues.py and stream families; power-on only for enrdy_queues (their full bit is a Reg without reset)')
-  chk.outside = ['capacities above the bound', 'valrdy_queues.py (does not import on this tree: InValRdyIfc no longer exists)',
+  chk.outside = ['capacities above the bound', 'GetRTL2GiveCL (cannot be constructed on this tree: reads s.get.msg, GetIfcRTL has ret) and the FL adapters', 'valrdy_queues.py (does not import on this tree: InValRdyIfc no longer exists)',
                  'histories longer than the cycle bound for the 1-entry, enrdy and CL queues (the N-entry queues.py / stream families additionally have an inductive step)']
   chk.assumptions = ['environment offers nothing while reset is high', 'en/rdy callers obey the protocol: en only when the (specified) rdy is high',
                      'scheduler = DynamicSchedulePass']
   chk.finish(rule="one BMC item per (family, kind, capacity, message type): all offers/messages/resets of all cycles symbolic, one obligation per outer path = "
-                  "conjunction over cycles of (rdy/val/msg/count == abstract FIFO); adapter items: a CL producer reusing one message object in front of an RTL queue through RecvCL2SendRTL, delivered == prefix of accepted")
+                  "conjunction over cycles of (rdy/val/msg/count == abstract FIFO); adapter items: a CL producer reusing one message object in front of an RTL queue through RecvCL2SendRTL, delivered == prefix of accepted; an RTL producer in front of a CL queue through RecvRTL2SendCL, consumer keeping the objects and draining, delivered == accepted")
 
 
 if __name__ == '__main__':
